@@ -11,6 +11,19 @@ verus! {
 global size_of usize == 8;
 
 #[verifier::external_type_specification] #[verifier::external_body] pub struct ExIoError(std::io::Error);
+#[verifier::external_type_specification] #[verifier::external_body] pub struct ExParseFloatError(std::num::ParseFloatError);
+#[verifier::external_type_specification] #[verifier::external_body] pub struct ExParseIntError(std::num::ParseIntError);
+#[verifier::external_type_specification] pub struct ExSeekFrom(std::io::SeekFrom);
+// ---- stand-ins for foreign error payload types of XlsxError / XlsbError (opaque; never inspected by the verified code)
+pub mod quick_xml {
+    pub struct Error;
+    pub mod events { pub mod attributes { pub struct AttrError; } }
+    pub mod encoding { pub struct EncodingError; }
+}
+pub mod zip { pub mod result { pub struct ZipError; } }
+pub mod vba { pub struct VbaError; }
+/// `crate::cfb::Cfb` as the xlsx / xlsb modules name it
+pub mod cfb { pub use super::{Cfb, CfbError}; }
 
 //@@ item src/cfb.rs const RESERVED_SECTORS
 //@@ item src/cfb.rs const DIFSECT
@@ -45,6 +58,13 @@ pub trait Read {
             // a stream that still holds enough bytes and does not fail at the OS level is not modelled as failing:
             // nothing is assumed about Err (any read may fail with an I/O error)
             ;
+}
+
+// TRUSTED: (A-io) std's `impl<R: Read> Read for &mut R` forwards to the referenced reader
+impl<R: Read> Read for &mut R {
+    open spec fn rem(&self) -> Seq<u8> { (**self).rem() }
+    fn read(&mut self, buf: &mut [u8]) -> (r: Result<usize, std::io::Error>) { (**self).read(buf) }
+    fn read_exact(&mut self, buf: &mut [u8]) -> (r: Result<(), std::io::Error>) { (**self).read_exact(buf) }
 }
 
 // ---------------------------------------------------------------- [MS-CFB] specification (independent of the code)
@@ -115,11 +135,17 @@ impl Sectors {
     pub closed spec fn sz(&self) -> int { self.size as int }
     pub closed spec fn loaded(&self) -> Seq<u8> { self.data@ }
     /// the whole sector space: what is already loaded followed by what the reader still holds
-    pub open spec fn total<R: Read>(&self, r: &R) -> Seq<u8> { self.loaded() + r.rem() }
+    pub open spec fn total<R: Read>(&self, r: &R) -> Seq<u8> { self.loaded() + (*r).rem() }
 }
 
 #[verifier::loop_isolation(false)]
 //@@ impl src/cfb.rs Sectors
+//@@ fn src/cfb.rs Sectors::new props=C13 ret=r
+//@@ sig
+    ensures
+        //# C13.sectors_new
+        r.sz() == size && r.loaded() == data@,
+//@@ end
 //@@ fn src/cfb.rs Sectors::get props=C13 entry ret=res
 //@@ sig
     requires
@@ -158,24 +184,24 @@ impl Sectors {
                     data0.len() <= len <= end,
                     data0 == old(self).data@, total == old(self).total(old(r)),
                     self.data@.take(data0.len() as int) == data0,
-                    self.data@.take(len as int) + r.rem() == total,
+                    self.data@.take(len as int) + (*r).rem() == total,
                 decreases end - len,
 //@@ before /let read = /
                 let ghost pre = self.data@;
-                let ghost rem0 = r.rem();
+                let ghost rem0 = (*r).rem();
 //@@ before /if read == 0/
                 proof {
                     let n = read as int;
                     assert(self.data@ =~= pre.take(len as int) + (rem0.take(n) + pre.subrange(len as int, end as int).skip(n)) + pre.skip(end as int));
                     assert(self.data@.take(len + n) =~= pre.take(len as int) + rem0.take(n));
                     assert(rem0 =~= rem0.take(n) + rem0.skip(n));
-                    assert(self.data@.take(len + n) + r.rem() =~= (pre.take(len as int) + rem0));
+                    assert(self.data@.take(len + n) + (*r).rem() =~= (pre.take(len as int) + rem0));
                     assert(self.data@.take(data0.len() as int) =~= pre.take(data0.len() as int));
                 }
 //@@ before /return Ok\(&self/
                     proof {
-                        assert(r.rem().len() == 0);
-                        assert(self.data@.take(len as int) + r.rem() =~= self.data@.take(len as int));
+                        assert((*r).rem().len() == 0);
+                        assert(self.data@.take(len as int) + (*r).rem() =~= self.data@.take(len as int));
                         assert(total.len() == len);
                         assert((id as int + 1) * self.size as int == end as int) by (nonlinear_arith) requires start as int == id as int * self.size as int, end as int == start + self.size;
                         if start <= len {
@@ -191,7 +217,7 @@ impl Sectors {
             assert((id as int + 1) * self.size as int == end as int) by (nonlinear_arith) requires start as int == id as int * self.size as int, end as int == start + self.size;
             if end as int <= data0.len() {
                 assert(self.data@ == data0);
-                assert(total == data0 + r.rem());
+                assert(total == data0 + (*r).rem());
                 assert(self.data@.subrange(start as int, end as int) =~= total.subrange(start as int, end as int));
             } else {
                 assert(self.data@.take(end as int) =~= self.data@);
@@ -351,13 +377,13 @@ proof fn lemma_signature(h: Seq<u8>)
 //@@ sig
     ensures
         //# C13,C20.header_invalid_rejected
-        !hdr_valid(old(f).rem()) ==> res is Err,
+        !hdr_valid((*old(f)).rem()) ==> res is Err,
         //# C13,C20.header_bad_signature_is_ole_error
-        old(f).rem().len() >= 512 && !hdr_signature_ok(old(f).rem()) ==> (match res { Err(e) => e is Ole || e is Io, Ok(_) => false }),
+        (*old(f)).rem().len() >= 512 && !hdr_signature_ok((*old(f)).rem()) ==> (match res { Err(e) => e is Ole || e is Io, Ok(_) => false }),
         //# C13.header_fields
         match res {
             Ok((hd, difat)) => {
-                let h = old(f).rem();
+                let h = (*old(f)).rem();
                 &&& hdr_valid(h)
                 &&& hd.version as int == hdr_major_version(h)
                 &&& hd.sector_size as int == hdr_sector_size(h)
@@ -371,14 +397,35 @@ proof fn lemma_signature(h: Seq<u8>)
             Err(_) => true,
         },
         //# C13.header_difat_109
-        match res { Ok((hd, difat)) => difat@ == hdr_difat(old(f).rem()) && difat@.len() == 109, Err(_) => true },
+        match res { Ok((hd, difat)) => difat@ == hdr_difat((*old(f)).rem()) && difat@.len() == 109, Err(_) => true },
         //# C13.header_consumes_first_sector
         match res {
-            Ok((hd, difat)) => old(f).rem().len() >= hdr_sector_size(old(f).rem()) && final(f).rem() == old(f).rem().skip(hdr_sector_size(old(f).rem())),
+            Ok((hd, difat)) => (*old(f)).rem().len() >= hdr_sector_size((*old(f)).rem()) && (*final(f)).rem() == (*old(f)).rem().skip(hdr_sector_size((*old(f)).rem())),
             Err(_) => true,
         },
 //@@ body
-        let ghost inp = f.rem();
+        let ghost inp = (*f).rem();
+//@@ before /if signature != /
+        proof {
+            assert(buf@ =~= inp.take(512));
+            assert(buf@.subrange(0, 8) =~= inp.subrange(0, 8));
+            lemma_signature(inp);
+            assert(signature == Some(le64(inp.subrange(0, 8)) as u64));
+        }
+//@@ before /let version = /
+        proof {
+            assert(hdr_signature_ok(inp));
+            assert(buf@.subrange(26, 28) =~= inp.subrange(26, 28));
+            assert(buf@.subrange(30, 32) =~= inp.subrange(30, 32));
+            assert(buf@.subrange(32, 34) =~= inp.subrange(32, 34));
+            assert(buf@.subrange(40, 44) =~= inp.subrange(40, 44));
+            assert(buf@.subrange(44, 48) =~= inp.subrange(44, 48));
+            assert(buf@.subrange(48, 52) =~= inp.subrange(48, 52));
+            assert(buf@.subrange(60, 64) =~= inp.subrange(60, 64));
+            assert(buf@.subrange(64, 68) =~= inp.subrange(64, 68));
+            assert(buf@.subrange(68, 72) =~= inp.subrange(68, 72));
+            assert(buf@.subrange(76, 512) =~= inp.subrange(76, 512));
+        }
 //@@ before /let mut difat = Vec::with_capacity/
         //# C06.alloc_bound_difat_capacity
         assert(alloc_le(difat_len as int, 109 + inp.len() as int)) by { reveal(alloc_le); }
@@ -475,6 +522,99 @@ proof fn lemma_prefix_space(a: Seq<u8>, b: Seq<u8>, size: int, ids: Seq<u32>)
     }
 }
 
+//@@ impl src/cfb.rs Directory
+//@@ fn src/cfb.rs Directory::from_slice props=C13 external_body ret=r
+//@@ sig
+    requires
+        buf@.len() >= 128,
+    ensures
+        // TRUSTED: assumed in Verus (encoding_rs decode, String byte operations, try_into); start/len and the panic on
+        // short input are discharged by the Kani harnesses cfb::from_slice_fields / cfb::from_slice_total, the name is A-enc
+        //# C13.dir_entry_fields
+        r.ent() == dir_ent(buf@.subrange(0, 128), sector_size as int),
+//@@ end
+//@@ endimpl
+
+// ---------------------------------------------------------------- [MS-CFB] logical content of a compound file
+// TRUSTED: (A-enc) UTF-16LE decoding of encoding_rs is an uninterpreted function of the bytes
+pub uninterp spec fn dec16(b: Seq<u8>) -> Seq<char>;
+/// index of the first NUL character, or the length
+pub open spec fn first_nul(s: Seq<char>) -> int
+    decreases s.len()
+{
+    if s.len() == 0 || s[0] == '\0' { 0 } else { 1 + first_nul(s.skip(1)) }
+}
+/// [MS-CFB] 2.6.1 directory entry name: UTF-16 text of the 64-byte name field up to its terminating NUL
+pub open spec fn dir_name(b: Seq<u8>) -> Seq<char> { dec16(b).take(first_nul(dec16(b))) }
+/// [MS-CFB] 2.6.1 directory entry (128 bytes): name @0..64, starting sector @116, stream size @120 (32 bits meaningful for 512-byte sectors)
+pub open spec fn dir_ent(e: Seq<u8>, size: int) -> DirEnt {
+    DirEnt {
+        name: dir_name(e.subrange(0, 64)),
+        start: le32(e.subrange(116, 120)) as u32,
+        len: (if size == 512 { le32(e.subrange(120, 124)) } else { le64(e.subrange(120, 128)) }) as nat,
+    }
+}
+pub open spec fn dir_entries(stream: Seq<u8>, size: int) -> Seq<DirEnt> {
+    Seq::new((stream.len() / 128) as nat, |i: int| dir_ent(stream.subrange(128 * i, 128 * i + 128), size))
+}
+/// [MS-CFB] 2.5 DIFAT sectors: (size/4 - 1) FAT sector ids followed by the id of the next DIFAT sector
+pub open spec fn difat_walk(data: Seq<u8>, size: int, next: u32, fuel: nat) -> Option<Seq<u32>>
+    decreases fuel
+{
+    if next >= 0xFFFF_FFFAu32 { Some(Seq::<u32>::empty()) }
+    else if fuel == 0 || !sector_in(data, size, next as int) { None }
+    else {
+        let w = le32_words(sector(data, size, next as int));
+        match difat_walk(data, size, w.last(), (fuel - 1) as nat) {
+            Some(t) => Some(w.drop_last() + t),
+            None => None,
+        }
+    }
+}
+/// DIFAT entries that name a FAT sector (FREESECT and the other special values do not)
+pub open spec fn fat_sector_ids(d: Seq<u32>) -> Seq<u32> { d.filter(|id: u32| id < 0xFFFF_FFFCu32) }
+/// the FAT: concatenation of the FAT sectors read as little-endian u32 words
+pub open spec fn fat_of(data: Seq<u8>, size: int, ids: Seq<u32>) -> Seq<u32>
+    decreases ids.len()
+{
+    if ids.len() == 0 { Seq::<u32>::empty() } else { fat_of(data, size, ids.drop_last()) + le32_words(sector(data, size, ids.last() as int)) }
+}
+pub struct Parsed { pub size: int, pub data: Seq<u8>, pub fat: Seq<u32>, pub dirs: Seq<DirEnt>, pub mini_fat: Seq<u32>, pub mini_stream: Seq<u8> }
+/// logical content of the compound file `inp` (None: not a well-formed compound file within `fuel` chain steps)
+#[verifier::opaque]
+pub open spec fn cfb_parse(inp: Seq<u8>, fuel: nat) -> Option<Parsed> {
+    if !hdr_valid(inp) { None } else {
+        let size = hdr_sector_size(inp);
+        let data = inp.skip(size);
+        let walk = difat_walk(data, size, hdr_first_difat_sector(inp) as u32, fuel);
+        if inp.len() < size || walk is None { None } else {
+            let ids = fat_sector_ids(hdr_difat(inp) + walk.unwrap());
+            let fat = fat_of(data, size, ids);
+            let dir_start = hdr_first_dir_sector(inp) as u32;
+            if !all_in(data, size, ids) || !chain_ok(data, size, fat, dir_start, fuel) { None } else {
+                let dirs = dir_entries(stream_bytes(data, size, fat, dir_start, hdr_num_dir_sectors(inp) * size, fuel), size);
+                if dirs.len() == 0 || (hdr_major_version(inp) != 3 && dirs[0].start == 0xFFFF_FFFEu32) { None }
+                else if hdr_num_mini_fat_sectors(inp) == 0 {
+                    Some(Parsed { size, data, fat, dirs, mini_fat: Seq::<u32>::empty(), mini_stream: Seq::<u8>::empty() })
+                } else {
+                    let mf_start = hdr_first_mini_fat_sector(inp) as u32;
+                    if !chain_ok(data, size, fat, dirs[0].start, fuel) || !chain_ok(data, size, fat, mf_start, fuel) { None } else {
+                        Some(Parsed { size, data, fat, dirs,
+                            mini_fat: le32_words(stream_bytes(data, size, fat, mf_start, hdr_num_mini_fat_sectors(inp) * size, fuel)),
+                            mini_stream: stream_bytes(data, size, fat, dirs[0].start, dirs[0].len as int, fuel) })
+                    }
+                }
+            }
+        }
+    }
+}
+
+proof fn lemma_parse_needs_header(inp: Seq<u8>, fuel: nat)
+    ensures cfb_parse(inp, fuel) is Some ==> hdr_valid(inp),
+{
+    reveal(cfb_parse);
+}
+
 //@@ impl src/cfb.rs Cfb
 //@@ fn src/cfb.rs Cfb::has_directory props=C13,C20 ret=b
 //@@ sig
@@ -537,11 +677,104 @@ proof fn lemma_prefix_space(a: Seq<u8>, b: Seq<u8>, size: int, ids: Seq<u32>)
                         assert forall|fuel: nat| #[trigger] chain_ok(ms, 64, self.mini_fats@, d.start, fuel)
                             implies chain_ok(self.mini_sectors.total(r), 64, self.mini_fats@, d.start, fuel)
                                 && stream_bytes(self.mini_sectors.total(r), 64, self.mini_fats@, d.start, d.len as int, fuel) == stream_bytes(ms, 64, self.mini_fats@, d.start, d.len as int, fuel) by {
-                            lemma_prefix_space(ms, r.rem(), 64, fat_chain(self.mini_fats@, d.start, fuel).unwrap());
+                            lemma_prefix_space(ms, (*r).rem(), 64, fat_chain(self.mini_fats@, d.start, fuel).unwrap());
                         }
                     }
 //@@ end
+//@@ fn src/cfb.rs Cfb::new props=C13,C20 external_body ret=res
+//@@ sig
+    ensures
+        // TRUSTED: contract of `Cfb::new` ASSUMED in Verus (body uses `impl Trait` iterators, `filter`/`map`/`collect` closures);
+        // stated from [MS-CFB] (`cfb_parse`), explored by the bounded Kani harness `cfb::new_small_image` only.
+        //# C13,C20.new_rejects_invalid_header
+        !hdr_valid((*old(reader)).rem()) ==> res is Err,
+        //# C13.new_parses_container
+        forall|fuel: nat| #[trigger] cfb_parse((*old(reader)).rem(), fuel) is Some ==> (match res {
+            Ok(c) => {
+                let p = cfb_parse((*old(reader)).rem(), fuel).unwrap();
+                &&& c.wf()
+                &&& c.ssz() == p.size
+                &&& c.fat() == p.fat
+                &&& c.dirs() == p.dirs
+                &&& c.mini_fat() == p.mini_fat
+                &&& c.mini_stream() == p.mini_stream
+                &&& c.space(final(reader)) == p.data
+            },
+            Err(e) => e is Io,
+        }),
+//@@ end
 //@@ endimpl
 
+// ---------------------------------------------------------------- C20: encrypted OOXML packages (xlsx / xlsb)
+// TRUSTED: (A-io) std::io::Seek on a reader: the reader has an immutable content; a successful seek to Start(0) makes
+// the whole content readable again; End(0) returns the content length.
+pub trait Seek: Read {
+    spec fn content(&self) -> Seq<u8>;
+    fn seek(&mut self, pos: std::io::SeekFrom) -> (r: Result<u64, std::io::Error>)
+        ensures
+            final(self).content() == old(self).content(),
+            match r {
+                Ok(n) => match pos {
+                    std::io::SeekFrom::Start(k) => n == k && (k == 0 ==> final(self).rem() == old(self).content()),
+                    std::io::SeekFrom::End(k) => k == 0 ==> n as int == old(self).content().len(),
+                    std::io::SeekFrom::Current(_) => true,
+                },
+                Err(_) => true,
+            };
+}
+
+//@@ item src/xlsx/mod.rs enum XlsxError
+//@@ item src/xlsb/mod.rs enum XlsbError
+// expansion of `from_err!(std::io::Error, XlsxError, Io)` / `from_err!(std::io::Error, XlsbError, Io)` (macro in src/utils.rs)
+impl vstd::std_specs::convert::FromSpecImpl<std::io::Error> for XlsxError {
+    open spec fn obeys_from_spec() -> bool { true }
+    open spec fn from_spec(e: std::io::Error) -> Self { XlsxError::Io(e) }
+}
+impl From<std::io::Error> for XlsxError {
+    fn from(e: std::io::Error) -> (r: XlsxError) { XlsxError::Io(e) }
+}
+impl vstd::std_specs::convert::FromSpecImpl<std::io::Error> for XlsbError {
+    open spec fn obeys_from_spec() -> bool { true }
+    open spec fn from_spec(e: std::io::Error) -> Self { XlsbError::Io(e) }
+}
+impl From<std::io::Error> for XlsbError {
+    fn from(e: std::io::Error) -> (r: XlsbError) { XlsbError::Io(e) }
+}
+
+//@@ fn src/xlsx/mod.rs check_for_password_protected props=C20 entry ret=res
+//@@ sig
+    ensures
+        //# C20.non_cfb_never_password
+        !hdr_signature_ok(old(reader).content()) ==> (match res { Ok(_) => true, Err(e) => e is Io }),
+        //# C20.password_iff_encrypted_package
+        forall|fuel: nat| #[trigger] cfb_parse(old(reader).content(), fuel) is Some ==> (match res {
+            Ok(_) => !has_name(cfb_parse(old(reader).content(), fuel).unwrap().dirs, "EncryptedPackage"@),
+            Err(e) => e is Io || (e is Password && has_name(cfb_parse(old(reader).content(), fuel).unwrap().dirs, "EncryptedPackage"@)),
+        }),
+        //# C20.password_only_for_cfb
+        res matches Err(e) && e is Password ==> hdr_valid(old(reader).content()),
+//@@ end
+pub mod xlsb { use super::*;
+//@@ fn src/xlsb/mod.rs check_for_password_protected props=C20 entry ret=res
+//@@ sig
+    ensures
+        //# C20.non_cfb_never_password
+        !hdr_signature_ok(old(reader).content()) ==> (match res { Ok(_) => true, Err(e) => e is Io }),
+        //# C20.password_iff_encrypted_package
+        forall|fuel: nat| #[trigger] cfb_parse(old(reader).content(), fuel) is Some ==> (match res {
+            Ok(_) => !has_name(cfb_parse(old(reader).content(), fuel).unwrap().dirs, "EncryptedPackage"@),
+            Err(e) => e is Io || (e is Password && has_name(cfb_parse(old(reader).content(), fuel).unwrap().dirs, "EncryptedPackage"@)),
+        }),
+        //# C20.password_only_for_cfb
+        res matches Err(e) && e is Password ==> hdr_valid(old(reader).content()),
+//@@ end
+} // mod xlsb
+
 } // verus!
+// stand-in for encoding_rs (only referenced from the external_body of Directory::from_slice, never seen by Verus)
+pub struct Encoding;
+impl Encoding {
+    pub fn decode<'a>(&'static self, _b: &'a [u8]) -> (std::borrow::Cow<'a, str>, &'static Encoding, bool) { unimplemented!() }
+}
+pub static UTF_16LE: &Encoding = &Encoding;
 fn main() {}
